@@ -525,7 +525,281 @@ def h_get_context(ex, st, frame, t, nf, args, dty):
     return [(args[0], None)]
 
 
+def split_enum(ex, st, v, good_discr):
+    """-> (cond_good) for Option/Result style objects"""
+    d = ex.get_discr(st, v).t
+    return d == BV64(good_discr)
+
+
+def h_option_and_then(ex, st, frame, t, nf, args, dty):
+    v, f = args[0], args[1]
+    is_some = split_enum(ex, st, v, 1)
+    outs = []
+    if ex.feasible(st, z3.Not(is_some)):
+        s_none = st.fork()
+        s_none.pc.append(z3.Not(is_some))
+        ex.set_dest_and_goto(s_none, t, none(dty))
+        outs.append(s_none)
+    if ex.feasible(st, is_some):
+        st.pc.append(is_some)
+        payload = ex._get_field(st, v, "Some", 0, "?")
+        call_value(ex, st, frame, f, [payload], t.dest, t.targets.get("return"))
+        outs.append(st)
+    return ("states", outs)
+
+
+def _wrap_some(dty):
+    def w(ex, st, val):
+        return some(val, dty)
+    return w
+
+
+def h_option_map(ex, st, frame, t, nf, args, dty):
+    v, f = args[0], args[1]
+    is_some = split_enum(ex, st, v, 1)
+    outs = []
+    if ex.feasible(st, z3.Not(is_some)):
+        s_none = st.fork()
+        s_none.pc.append(z3.Not(is_some))
+        ex.set_dest_and_goto(s_none, t, none(dty))
+        outs.append(s_none)
+    if ex.feasible(st, is_some):
+        st.pc.append(is_some)
+        payload = ex._get_field(st, v, "Some", 0, "?")
+        call_value(ex, st, frame, f, [payload], t.dest, t.targets.get("return"))
+        st.frames[-1].ret_wrap = _wrap_some(dty)
+        outs.append(st)
+    return ("states", outs)
+
+
+def h_option_filter(ex, st, frame, t, nf, args, dty):
+    """Option::filter(opt, pred): pred is evaluated purely on a reference to the payload"""
+    v, f = args[0], args[1]
+    is_some = split_enum(ex, st, v, 1)
+    alts = [(none(dty), z3.Not(is_some))]
+    if ex.feasible(st, is_some):
+        payload = ex._get_field(st, v, "Some", 0, "?")
+        c = st.new_cell(payload)
+        keep = eval_pure(ex, st, f, [Ref(c, (), False, "&?")])
+        if not isinstance(keep, Sym):
+            raise Unsupported("Option::filter predicate")
+        alts.append((some(payload, dty), z3.And(is_some, keep.t)))
+        alts.append((none(dty), z3.And(is_some, z3.Not(keep.t))))
+    return alts
+
+
+def h_option_cloned(ex, st, frame, t, nf, args, dty):
+    v = args[0]
+    is_some = split_enum(ex, st, v, 1)
+    alts = [(none(dty), z3.Not(is_some))]
+    if ex.feasible(st, is_some):
+        payload = ex._get_field(st, v, "Some", 0, "?")
+        alts.append((some(copy.deepcopy(deref_val(ex, st, payload)), dty), is_some))
+    return alts
+
+
+def h_option_unwrap_or(ex, st, frame, t, nf, args, dty):
+    v, dflt = args[0], args[1]
+    is_some = split_enum(ex, st, v, 1)
+    alts = [(dflt, z3.Not(is_some))]
+    if ex.feasible(st, is_some):
+        alts.append((ex._get_field(st, v, "Some", 0, dty), is_some))
+    return alts
+
+
+def h_option_is_some(ex, st, frame, t, nf, args, dty):
+    v = deref_val(ex, st, args[0])
+    c = split_enum(ex, st, v, 1)
+    if nf.endswith("is_none"):
+        c = z3.Not(c)
+    return [(Sym(c, "bool"), None)]
+
+
+def h_result_is_ok(ex, st, frame, t, nf, args, dty):
+    v = deref_val(ex, st, args[0])
+    c = split_enum(ex, st, v, 0)
+    if nf.endswith("is_err"):
+        c = z3.Not(c)
+    return [(Sym(c, "bool"), None)]
+
+
+def h_try_branch(ex, st, frame, t, nf, args, dty):
+    v = args[0]
+    if "Result" in nf.split(" as ")[0]:
+        good = split_enum(ex, st, v, 0)
+        alts = []
+        if ex.feasible(st, good):
+            alts.append((mk_enum(dty, "Continue", 0, [ex._get_field(st, v, "Ok", 0, "?")]), good))
+        if ex.feasible(st, z3.Not(good)):
+            e = ex._get_field(st, v, "Err", 0, "?")
+            alts.append((mk_enum(dty, "Break", 1, [err(e, "Result<Infallible, E>")]), z3.Not(good)))
+        return alts
+    good = split_enum(ex, st, v, 1)
+    alts = []
+    if ex.feasible(st, good):
+        alts.append((mk_enum(dty, "Continue", 0, [ex._get_field(st, v, "Some", 0, "?")]), good))
+    if ex.feasible(st, z3.Not(good)):
+        alts.append((mk_enum(dty, "Break", 1, [none("Option<Infallible>")]), z3.Not(good)))
+    return alts
+
+
+def h_from_residual(ex, st, frame, t, nf, args, dty):
+    r = args[0]
+    if base_type(dty).split("::")[-1] == "Option":
+        return [(none(dty), None)]
+    e = r.fields.get(("Err", 0)) if isinstance(r, Obj) else None
+    if e is None:
+        e = Obj("error")
+    o = err(e, dty)
+    st.events.append(("error_return", nf, None))
+    return [(o, None)]
+
+
+def h_err_map_keep(ex, st, frame, t, nf, args, dty):
+    """Result::map_err / with_context / context: Ok payload kept, Err payload replaced by an arbitrary error.
+    The closure argument only builds the error value and is not executed."""
+    v = args[0]
+    good = split_enum(ex, st, v, 0)
+    alts = []
+    if ex.feasible(st, good):
+        alts.append((ok(ex._get_field(st, v, "Ok", 0, "?"), dty), good))
+    if ex.feasible(st, z3.Not(good)):
+        e = Obj("error")
+        e.tag = ("mapped_error", v.fields.get(("Err", 0)))
+        alts.append((err(e, dty), z3.Not(good)))
+    return alts
+
+
+def h_ok_or_else(ex, st, frame, t, nf, args, dty):
+    v = args[0]
+    is_some = split_enum(ex, st, v, 1)
+    alts = []
+    if ex.feasible(st, is_some):
+        alts.append((ok(ex._get_field(st, v, "Some", 0, "?"), dty), is_some))
+    if ex.feasible(st, z3.Not(is_some)):
+        alts.append((err(Obj("error"), dty), z3.Not(is_some)))
+    return alts
+
+
+def h_box_pin(ex, st, frame, t, nf, args, dty):
+    c = st.new_cell(args[0])
+    p = Obj(dty)
+    p.fields[(None, 0)] = Ref(c, (), True, "Box<?>")
+    return [(p, None)]
+
+
+def h_box_new(ex, st, frame, t, nf, args, dty):
+    c = st.new_cell(args[0])
+    return [(Ref(c, (), True, dty), None)]
+
+
+def find_future(ex, st, v):
+    """Pin<&mut F> / Pin<Box<dyn Future>> / &mut Pin<Box<..>> ... -> (future value, Ref to where it lives)"""
+    where = None
+    n = 0
+    while True:
+        n += 1
+        if n > 10:
+            raise Unsupported("future lookup")
+        if isinstance(v, Ref):
+            where = v
+            v = ex.read_path(st, v.cell, v.proj)
+            continue
+        if isinstance(v, FutureV):
+            return v, where
+        if isinstance(v, Obj):
+            if v.ty.startswith("{coroutine") or v.ty.startswith("{async"):
+                return v, where
+            if (None, 0) in v.fields and (base_type(v.ty).split("::")[-1] in ("Pin", "Box", "MaybeDone") or v.ty.startswith("Pin<") or v.ty.startswith("std::pin::Pin<")):
+                v = v.fields[(None, 0)]
+                continue
+        raise Unsupported("not a future: %r" % (v,))
+
+
+def coroutine_body(ex, ty):
+    m = re.search(r"@([^ }]+:\d+:\d+: \d+:\d+)", ty)
+    idx = getattr(ex, "_coroutine_index", None)
+    if idx is None:
+        idx = {}
+        for name, b in ex.bodies.items():
+            m2 = re.match(r"^_1: Pin<&mut \{(async (?:block|closure body)@([^}]+)|async fn body of ([^}]+))\}>", b._args_text)
+            if m2:
+                if m2.group(2):
+                    idx["@" + m2.group(2).strip()] = b
+                else:
+                    idx["fn " + m2.group(3).strip()] = b
+        ex._coroutine_index = idx
+    if m and ("@" + m.group(1)) in idx:
+        return idx["@" + m.group(1)]
+    m = re.search(r"async fn body of ([^}]+)", ty)
+    if m and ("fn " + m.group(1).strip()) in idx:
+        return idx["fn " + m.group(1).strip()]
+    return None
+
+
+def output_type_of_future(dty_poll):
+    """Poll<T> -> T"""
+    ga = generic_args(dty_poll)
+    return ga[0] if ga else "?"
+
+
+def poll_ready(dty, v):
+    return mk_enum(dty, "Ready", 0, [v])
+
+
+def poll_pending(dty):
+    return mk_enum(dty, "Pending", 1)
+
+
+def h_future_poll(ex, st, frame, t, nf, args, dty):
+    fut, where = find_future(ex, st, args[0])
+    out_ty = output_type_of_future(dty)
+    if isinstance(fut, FutureV):
+        st.events.append(("await", fut.callee, fut.args))
+        alts = []
+        hook = getattr(ex, "await_hook", None)
+        if hook is not None:
+            r = hook(ex, st, fut, out_ty, dty)
+            if r is not None:
+                return r
+        v = ex.fresh(out_ty, st, "aw")
+        alts.append((poll_ready(dty, v), None))
+        return alts
+    # a coroutine object of this crate
+    body = coroutine_body(ex, fut.ty)
+    if body is None:
+        raise Unsupported("coroutine body not found for " + fut.ty[:80])
+    from .pearl import canon_name
+    if ex.inline(body) or getattr(ex, "inline_all_coroutines", False):
+        pin = Obj("Pin<&mut %s>" % fut.ty)
+        pin.fields[(None, 0)] = where
+        ex.push_frame(st, body, [pin, args[1]], t.dest, t.targets.get("return"))
+        return "pushed"
+    st.events.append(("await", canon_name(body), None))
+    hook = getattr(ex, "await_hook", None)
+    if hook is not None:
+        r = hook(ex, st, fut, out_ty, dty)
+        if r is not None:
+            return r
+    return [(poll_ready(dty, ex.fresh(out_ty, st, "aw")), None)]
+
+
 STD_SUMMARIES = [
+    (r"^(std::option::)?Option::and_then$", h_option_and_then),
+    (r"^(std::option::)?Option::map$", h_option_map),
+    (r"^(std::option::)?Option::filter$", h_option_filter),
+    (r"^(std::option::)?Option::cloned$", h_option_cloned),
+    (r"^(std::option::)?Option::unwrap_or$", h_option_unwrap_or),
+    (r"^(std::option::)?Option::(is_some|is_none)$", h_option_is_some),
+    (r"^(std::result::)?Result::(is_ok|is_err)$", h_result_is_ok),
+    (r"^<.* as (\S*::)?Try>::branch$", h_try_branch),
+    (r"^<.* as (\S*::)?FromResidual<.*>>::from_residual$", h_from_residual),
+    (r"^(std::result::)?Result::map_err$", h_err_map_keep),
+    (r"^<(std::result::)?Result as (anyhow::)?Context<.*>>::(with_context|context)$", h_err_map_keep),
+    (r"^(std::option::)?Option::ok_or_else$", h_ok_or_else),
+    (r"^Box::pin$", h_box_pin),
+    (r"^Box::new$", h_box_new),
+    (r"^<.* as (futures::|std::future::|core::future::)?Future>::poll$", h_future_poll),
     (r"^<(log::)?Level as PartialOrd<(log::)?LevelFilter>>::le$", h_log_disabled),
     (r"^(log::)?max_level$", h_fresh),
     (r"RwLock::(write|read)$", h_lock),
@@ -555,7 +829,7 @@ STD_SUMMARIES = [
     (r"^std::cmp::(min|max)$", h_min_max),
     (r"^Box::new_uninit$", h_box_new_uninit),
     (r"^std::boxed::box_assume_init_into_vec_unsafe$", h_box_into_vec),
-    (r"^<.* as IntoFuture>::into_future$", h_into_future),
+    (r"^<.* as (\S*::)?IntoFuture>::into_future$", h_into_future),
     (r"^Pin::new_unchecked$", h_pin_new_unchecked),
     (r"^std::future::get_context$", h_get_context),
 ]
